@@ -278,3 +278,29 @@ def rule_sensitive_specs():
             {"name": "W2", "skills": {"T1": 1.0}, "fskills": {}, "cost": 1.0}]}]
         out.append({"tasks": tasks, "links": [], "components": comps, "workplaces": wps, "teams": teams, "label": "pairs:%s:%s" % (wrule, frule)})
     return out
+
+
+def auto_component_specs():
+    """a component whose tasks include an automatic one: assemble (needs facility) -> cure (automatic) -> inspect, in a shop"""
+    out = []
+    for cure_work, unit in ((2.0, None), (1.0, 0.5)):
+        for link in ("FS", "SS"):
+            for two_comp in (False, True):
+                names = ["T0", "T1", "T2"]
+                tasks = [{"name": "T0", "work": 2.0, "nf": True}, {"name": "T1", "work": cure_work, "auto": True, "unit": unit}, {"name": "T2", "work": 1.0}]
+                links = [[0, 1, link], [1, 2, "FS"]]
+                comps = [{"name": "C0", "tasks": [0, 1, 2]}] if not two_comp else [{"name": "C0", "tasks": [0, 1]}, {"name": "C1", "tasks": [2]}]
+                wps = [{"name": "WP0", "cap": 2.0, "targets": [0, 1, 2], "facilities": [{"name": "F0", "skills": {"T0": 1.0}, "cost": 1.0}]}]
+                teams = [{"name": "TM0", "targets": [0, 2], "workers": [{"name": "W0", "skills": {"T0": 1.0, "T2": 1.0}, "fskills": {"F0": 1.0}, "cost": 1.0}]}]
+                out.append({"tasks": tasks, "links": links, "components": comps, "workplaces": wps, "teams": teams, "label": "autocomp:%s:%s:%s" % (cure_work, link, two_comp)})
+    return out
+
+
+def two_team_workplace_spec():
+    """two teams (an even number matters for anything done 'once per team') and a workplace with non-palindromic logs"""
+    names = ["T0", "T1", "T2"]
+    return {"tasks": [{"name": "T0", "work": 2.0, "nf": True, "due": 3}, {"name": "T1", "work": 1.0, "due": 6}, {"name": "T2", "work": 3.0, "nf": True}], "links": [[0, 1, "FS"], [0, 2, "FS"]],
+            "components": [{"name": "C0", "tasks": [0]}, {"name": "C2", "tasks": [2]}],
+            "workplaces": [{"name": "WP0", "cap": 1.0, "targets": [0, 2], "facilities": [{"name": "F0", "skills": {"T0": 1.0, "T2": 1.0}, "cost": 2.0}]}],
+            "teams": [{"name": "TM0", "targets": [0, 1], "workers": [{"name": "W0", "skills": {"T0": 1.0, "T1": 1.0}, "fskills": {"F0": 1.0}, "cost": 1.0}]},
+                      {"name": "TM1", "targets": [1, 2], "workers": [{"name": "W1", "skills": {"T1": 1.0, "T2": 1.0}, "fskills": {"F0": 1.0}, "cost": 3.0}]}]}
